@@ -5,6 +5,7 @@ from harness import romsfile
 from harness.common import T0
 
 PROPERTY = "C03"
+RTOL = 1e-6
 CLAUSES = {
     "no-crash": "forcing constructs and updates for every covering layout",
     "field": "at every step the velocity field equals the linear interpolation between the two bracketing frames (the frame itself on a frame step)",
@@ -13,7 +14,7 @@ CLAUSES = {
     "particle-variables": "variables[u, v] and velocity() at the particle are the (sign-adjusted) sample of the field in force",
 }
 BOUNDS = {
-    "quick": "3 frames at symbolic steps in [-2, N+2] (strictly increasing, spacing 1..3, covering the window), all partitions into files (3),(2,1),(1,2),(1,1,1), Nsteps 3, forward and reversed, one scalar field; all frame values symbolic (5x5x2 grid)",
+    "quick": "(plus 4 frames in partitions (4),(2,2),(1,3) and packed storage with per-file scale factors for partitions (2,1),(1,1,1)) 3 frames at symbolic steps in [-2, N+2] (strictly increasing, spacing 1..3, covering the window), all partitions into files (3),(2,1),(1,2),(1,1,1), Nsteps 3, forward and reversed, one scalar field; all frame values symbolic (5x5x2 grid)",
     "thorough": "4 frames (8 partitions), Nsteps 4, spacing 1..4; 5 frames (2,2,1),(1,3,1),(5); dt 600 s and 1 s",
 }
 ASSUMES = ["frames lie on the model time grid and cover [start, stop]", "spatial sampling is C02's subject: expected particle values are obtained by sampling the expected field with the repository's own sample3DUV"]
@@ -40,6 +41,14 @@ def scenarios(tier):
             for rev in (False, True):
                 out.append(dict(name=f"fr{nfr}-{'_'.join(map(str, part))}-{'rev' if rev else 'fwd'}-N{Nst}-dt{dt}", fn="run",
                                 params=dict(part=list(part), rev=rev, N=Nst, maxgap=maxgap, dt=dt), cost=nfr ** 3))
+    if q:
+        # four frames: the run may start two or more frames into the series (frames before the pre-start frame exist)
+        for part in ((4,), (2, 2), (1, 3)):
+            for rev in (False, True):
+                out.append(dict(name=f"fr4-{'_'.join(map(str, part))}-{'rev' if rev else 'fwd'}-N3-dt600", fn="run", params=dict(part=list(part), rev=rev, N=3, maxgap=3, dt=600), cost=64))
+    for part in ((2, 1), (1, 1, 1)):
+        for rev in (False, True):
+            out.append(dict(name=f"packed-{'_'.join(map(str, part))}-{'rev' if rev else 'fwd'}", fn="run", params=dict(part=list(part), rev=rev, N=3, maxgap=3, dt=600, packed=True), cost=30))
     if not q:
         for part in ((2, 2, 1), (1, 3, 1), (5,)):
             for rev in (False, True):
@@ -60,7 +69,7 @@ def run(W, p):
     sgn = -1 if rev else 1
     roms, tk, st = W.load("ladim.ROMS"), W.load("ladim.timekeeper"), W.load("ladim.state")
     # frame positions in simulation order
-    m = [W.int(f"m{i}", -2, Nst + 2) for i in range(n)]
+    m = [W.int(f"m{i}", -2 - max(0, n - 3) * 2, Nst + 2) for i in range(n)]
     for i in range(n - 1):
         W.assume(m[i] < m[i + 1], "frames strictly ordered")
         W.assume(m[i + 1] - m[i] <= p["maxgap"], "bounded spacing")
@@ -75,10 +84,18 @@ def run(W, p):
     order = list(range(n)) if not rev else list(range(n))[::-1]
     phys_part = part if not rev else part[::-1]
     k = 0
+    scale_of = {}
     for fi, nfr in enumerate(phys_part):
         idx = order[k:k + nfr]
         times = [T0 + sgn * m[i] * dt - romsfile.REFSEC for i in idx]
-        fs = romsfile.forcing_vars(times, [frames[i][0] for i in idx], [frames[i][1] for i in idx], extra=dict(temp=[frames[i][2] for i in idx]))
+        scale = offs = None
+        if p.get("packed"):
+            # every file carries its own packing attributes
+            su, sT, oT = W.real(f"scale_uv{fi}", W.frac(1, 1000), 1), W.real(f"scale_T{fi}", W.frac(1, 1000), 1), W.real(f"offset_T{fi}", -5, 5)
+            scale, offs = dict(u=su, v=su, temp=sT), dict(u=0, v=0, temp=oT)
+            for i in idx:
+                scale_of[i] = (su, sT, oT)
+        fs = romsfile.forcing_vars(times, [frames[i][0] for i in idx], [frames[i][1] for i in idx], extra=dict(temp=[frames[i][2] for i in idx]), scale=scale, offsets=offs)
         dims = dict(fs[0], xi_rho=L, eta_rho=M, xi_u=L - 1, eta_u=M, xi_v=L, eta_v=M - 1, s_rho=N)
         W.nc_file(tmp / f"f_{fi:03d}.nc", dims, fs[1])
         k += nfr
@@ -103,11 +120,23 @@ def run(W, p):
     def lerp(A, B, w):
         return [[[a * (1 - w) + b * w for a, b in zip(ra, rb)] for ra, rb in zip(pa, pb)] for pa, pb in zip(A, B)]
 
+    def scaled(f, c):
+        return [[[x * c for x in r] for r in pl] for pl in f]
+
+    def fr(q, comp):  # physical (unpacked) field of frame q
+        raw = frames[q][comp]
+        if not p.get("packed"):
+            return raw
+        su, sT, oT = scale_of[q]
+        if comp < 2:
+            return scaled(raw, su)
+        return [[[oT + sT * x for x in r] for r in pl] for pl in raw]
+
     def field_at(t):  # t = step + fraction (rational) in simulation order
         lo = max(q for q in range(n) if mc[q] <= t)
         hi = min(q for q in range(n) if mc[q] >= t)
         w = 0 if lo == hi else W.frac(1) * (t - mc[lo]) / (mc[hi] - mc[lo])
-        return lerp(sub_u(frames[lo][0]), sub_u(frames[hi][0]), w), lerp(sub_v(frames[lo][1]), sub_v(frames[hi][1]), w), lo
+        return lerp(sub_u(fr(lo, 0)), sub_u(fr(hi, 0)), w), lerp(sub_v(fr(lo, 1)), sub_v(fr(hi, 1)), w), lo
 
     def flat(a):
         if W.symbolic:
@@ -127,7 +156,7 @@ def run(W, p):
         F.update()
         eu, ev, lo = field_at(s)
         W.prove(W.all([same(F.fields["u"], eu), same(F.fields["v"], ev)]), "field", dict(step=s, frames_at=mc, part=part, rev=rev))
-        W.prove(same(F.fields["temp"], sub_r(frames[lo][2])), "scalar", dict(step=s, frames_at=mc, part=part, rev=rev))
+        W.prove(same(F.fields["temp"], sub_r(fr(lo, 2))), "scalar", dict(step=s, frames_at=mc, part=part, rev=rev))
         X, Y, K, A = S.X - i0, S.Y - j0, F.K, F.A
         for frac in (0, W.frac(1, 2), 1):
             if s + frac > mc[-1]:
